@@ -173,6 +173,9 @@ def position_code(shape, dtype, seed=0):
 
 
 LAYOUTS = ("c", "fortran", "strided", "bigendian", "readonly", "transposed")
+# ... and, for the chunk I/O layer, a masked array (what nibabel / scipy
+# pipelines hand over after thresholding): its data are the chunk
+LAYOUTS_IO = LAYOUTS + ("masked",)
 
 
 def laid_out(arr, layout):
@@ -196,9 +199,12 @@ def laid_out(arr, layout):
     elif layout == "transposed":
         axes = tuple(reversed(range(arr.ndim)))
         out = np.ascontiguousarray(arr.transpose(axes)).transpose(axes)
+    elif layout == "masked":
+        mask = (np.arange(arr.size).reshape(arr.shape) % 3) == 1
+        out = np.ma.MaskedArray(np.ascontiguousarray(arr).copy(), mask=mask)
     else:
         raise ValueError(layout)
-    assert out.shape == arr.shape and np.array_equal(out, arr)
+    assert out.shape == arr.shape and np.array_equal(np.asarray(out), arr)
     return out
 
 
